@@ -244,4 +244,86 @@ def run(report):
                                                   how_to_replay="compile a one-expression function with tensora.compile._compile_llvm.compile_module and compare with specs.ir_sem.sem_e (the C06 differential does)"), False)
                 elif ob.verdict != "discharged":
                     report.undecide(f"{ob.oid}: {ob.verdict} {ob.meta.get('reason')}")
+    # ---- assignment / declaration-assignment: the int -> double conversion on store ------------------
+    class StoreBuilder(Builder):
+        def __init__(self):
+            self.stores = []
+
+        def store(self, value, ptr):
+            if str(value.type) != str(ptr.type.pointee):
+                raise TypeError(f"cannot store {value.type} to {ptr.type}: mismatching types")  # what llvmlite raises
+            self.stores.append((value, ptr))
+
+    value_t = z3.Const("arg.value", IR.sort())
+    for fn_name, is_decl in (("ir_to_llvm_assignment", False), ("ir_to_llvm_declaration_assignment", True)):
+        impl = getattr(L, fn_name)
+        report.functions.append(f"tensora.codegen._ir_to_llvm.{fn_name}")
+        for vt in (i32, dbl, i1):
+            for pt in (i32, dbl, i1):
+                if vt is i1 and pt is dbl:
+                    continue  # a boolean stored into a double is not well-typed IR (C gives 1.0, sitofp i1 gives -1.0)
+                label = f"{fn_name}[{vt} -> {pt}*]"
+                slot = FakeValue(llvm.PointerType(pt), None)
+                saved_gep, saved_decl = L.get_element_pointer, L.ir_to_llvm_declaration
+
+                class Fixed:
+                    def __init__(self, v):
+                        self.v = v
+
+                    def apply(self, it, fn, args, kwargs):
+                        return self.v
+
+                class FixedExpr:
+                    def apply(self, it, fn, args, kwargs):
+                        t = u.lift(args[0], IR)
+                        it.assume(typed(vt, sem(t)))
+                        return FakeValue(vt, sem(t))
+
+                interp.contracts[id(L.get_element_pointer)] = Fixed(slot)
+                interp.contracts[id(L.ir_to_llvm_declaration)] = Fixed(slot)
+                interp.contracts[id(L.ir_to_llvm_expression)] = FixedExpr()
+                outcome = {}
+
+                def body(ps, impl=impl, is_decl=is_decl):
+                    interp.current = {"name": label, "group": set(), "root_term": value_t, "rank": 0}
+                    b = StoreBuilder()
+                    if is_decl:
+                        node = ir.DeclarationAssignment.__new__(ir.DeclarationAssignment)
+                        object.__setattr__(node, "target", ir.Declaration(ir.Variable("x"), None))
+                    else:
+                        node = ir.Assignment.__new__(ir.Assignment)
+                        object.__setattr__(node, "target", ir.Variable("x"))
+                    object.__setattr__(node, "value", interp.wrap(value_t, IR))
+                    try:
+                        interp.call_repo_function(impl, [node, b, {}], {})
+                        outcome["stores"] = b.stores
+                        outcome["pc"] = list(ps.pc)
+                    except PyRaise as e:
+                        outcome["raise"] = repr(e.value)
+
+                ctx.explore(body)
+                allowed = (str(vt) == str(pt)) or (vt is i32 and pt is dbl)
+                bad = None
+                if "raise" in outcome:
+                    if allowed:
+                        bad = f"store of a {vt} value into a {pt} location is rejected ({outcome['raise']}); the C back end accepts it"
+                elif not allowed:
+                    bad = None if not outcome.get("stores") else f"a {vt} value is stored into a {pt} location without LLVM rejecting it (model of llvmlite.store is wrong?)"
+                else:
+                    st = outcome.get("stores") or []
+                    if len(st) != 1:
+                        bad = f"{len(st)} stores emitted"
+                    else:
+                        v, ptr = st[0]
+                        want = VF(z3.ToReal(acc("VI", "v")(sem(value_t)))) if (vt is i32 and pt is dbl) else sem(value_t)
+                        sv = z3.Solver()
+                        sv.add(*outcome["pc"])
+                        sv.add(v.den != want)
+                        if sv.check() != z3.unsat or ptr is not slot:
+                            bad = "the stored value is not the (converted) value of the right-hand side"
+                oid = f"{label}:store-converts-like-the-C-back-end"
+                report.add_obligation(oid, "A", "discharged" if bad is None else "sat", "pyvc + z3", 0.0, fn_name)
+                if bad:
+                    report.violation(oid, dict(what=bad, how_to_replay="compile `double x = <int expression>` with tensora.compile._compile_llvm.compile_module"), True)
+    interp.contracts[id(L.ir_to_llvm_expression)] = ExprContract()
     report.trusted.append("T5: LLVM instruction semantics as modelled by the recording builder of contracts/llvm_emitters.py (two's-complement i32, IEEE double via the opaque operations, signed/unsigned conversions and comparisons)")
